@@ -2,6 +2,7 @@ package main
 
 import (
 	"go/token"
+	"go/types"
 	"regexp"
 	"strings"
 
@@ -586,6 +587,55 @@ func c11Pairing(c *Ctx) {
 			"sizes = append(sizes, len(sig[i].ToBytes())) for i ascending over the receiver: the split points of ToBytes", "Sizes is not the list of len(sig[i].ToBytes()) in slice order")
 	} else {
 		c.Unresolved("C11.6", "Multi.Sizes", "anchor missing: the cache key cannot tell the signers' signatures apart")
+	}
+	// the key builder learns the sizes through a type assertion on an interface: every multi-signature type that has a
+	// Sizes method must implement the asserted interface, or the assertion silently fails and the sizes are left out
+	{
+		n := 0
+		var bad []string
+		for _, fn := range p.ModFuncs {
+			if funcPkgPath(fn) != modPath+"/security/cert" || fn.Blocks == nil || strings.HasSuffix(p.FuncPos(fn), "_test.go") {
+				continue
+			}
+			eachInstr(fn, func(in ssa.Instruction) {
+				ta, ok := in.(*ssa.TypeAssert)
+				if !ok {
+					return
+				}
+				iface, ok := ta.AssertedType.Underlying().(*types.Interface)
+				if !ok {
+					return
+				}
+				hasSizes := false
+				for i := 0; i < iface.NumMethods(); i++ {
+					if iface.Method(i).Name() == "Sizes" {
+						hasSizes = true
+					}
+				}
+				if !hasSizes {
+					return
+				}
+				n++
+				for _, mf := range p.ModFuncs {
+					if mf.Name() != "Sizes" || mf.Signature.Recv() == nil || funcPkgPath(mf) != modPath+"/security/crypto" || mf.Synthetic != "" && mf.Origin() == nil {
+						continue
+					}
+					rt := mf.Signature.Recv().Type()
+					if _, isTP := rt.(*types.TypeParam); isTP {
+						continue
+					}
+					if named := namedOf(rt); named != nil && named.TypeParams().Len() > 0 && named.TypeArgs().Len() == 0 {
+						continue // the generic declaration itself: judged on its instantiations
+					}
+					if !types.Implements(rt, iface) && !types.Implements(types.NewPointer(rt), iface) {
+						bad = append(bad, rt.String()+" has a Sizes method but does not implement "+ta.AssertedType.String())
+					}
+				}
+			})
+		}
+		sortStrings(bad)
+		c.Check(n > 0 && len(bad) == 0, "C11.6", "the key builder's Sizes assertion matches the multi-signature types", "security/cert/cache.go",
+			"every type of security/crypto with a Sizes method implements the interface the key builder asserts", join(bad))
 	}
 	if fn := p.Method("security/crypto", "Multi", "Participants"); fn != nil {
 		k := NewKeyer(p, fn)
